@@ -27,8 +27,9 @@ RULE = ('BAM files produced by the spec-level encoder (Python twin of Coq Model.
         'stream size -1/0/+1/+2), whole / filtered / reordered / chunk-stream writes re-read.  non-trivial = at least two '
         'records that differ in name length, CIGAR count or l_seq parity')
 EXHAUSTIVE = {'quick': False, 'thorough': False}
-TIE = ('correspondence (header parse, block chain, field offsets, nibble unpack, CIGAR split, reference interval, '
-       'prepend-mode chunk reader and writer evaluated in Coq on the decompressed file bytes)')
+TIE = 'translator+correspondence'   # translate/gen_c16.py -> Gen/C16.v, Bridge/C16.v, theorem C16_source_tie; plus the
+# correspondence (header parse, block chain, field offsets, nibble unpack, CIGAR split, reference interval,
+# prepend-mode chunk reader and writer evaluated in Coq on the decompressed file bytes)
 ASSUMPTIONS = ['A-GZIP: Python gzip/zlib decompress a (multi-member) gzip/BGZF file to the concatenation of the member '
                'payloads and file.read(n) returns n bytes unless the stream ends (BGZF framing is not modelled)',
                'the BAM header text is passed through uninterpreted',
